@@ -28,3 +28,7 @@ extern int lin_rank(int m, int n, lc_t *A, long double tol,
 extern int lin_lstsq(int m, int n, int nrhs, const lc_t *A, const lc_t *B,
 	lc_t *X, long double tol, long double *pivratio);
 #endif
+
+/* lin_pivots: complete-pivoting elimination of m x n A (destroyed); stores
+   pivot magnitudes (at most min(m,n)) and returns how many were non-zero */
+extern int lin_pivots(int m, int n, lc_t *A, long double *piv);
